@@ -74,6 +74,30 @@ def _table_strings(f, name, _depth=0):
     return out
 
 
+def _key_list_strings(f, key):
+    """the local `key` is the target of a loop / comprehension over a local list: every string the list is given anywhere in f (`L = [..]`, `L += [..]`,
+    `L.append('k')`, `L.extend([..])`, `L.insert(i, 'k')`) is a key the reader may ask for"""
+    lists = set()
+    for n in ast.walk(f.node):
+        gens = [(n.target, n.iter)] if isinstance(n, ast.For) else [(g.target, g.iter) for g in getattr(n, "generators", [])]
+        for tgt, it in gens:
+            if any(isinstance(x, ast.Name) and x.id == key for x in ast.walk(tgt)):
+                lists |= {x.id for x in ast.walk(it) if isinstance(x, ast.Name)}
+    out = set()
+
+    def strings(e):
+        return {c.value for c in ast.walk(e) if isinstance(c, ast.Constant) and isinstance(c.value, str)}
+    for n in ast.walk(f.node):
+        if isinstance(n, (ast.Assign, ast.AugAssign, ast.AnnAssign)) and n.value is not None:
+            tgts = n.targets if isinstance(n, ast.Assign) else [n.target]
+            if any(isinstance(t, ast.Name) and t.id in lists for t in tgts) and not any(isinstance(x, ast.Call) for x in ast.walk(n.value)):
+                out |= strings(n.value)
+        elif isinstance(n, ast.Call) and isinstance(n.func, ast.Attribute) and n.func.attr in ("append", "extend", "insert") and isinstance(n.func.value, ast.Name) \
+                and n.func.value.id in lists and n.args:
+            out |= strings(n.args[-1])
+    return out
+
+
 def consumed_keys(funcs):
     out = set()
     for f in funcs:
@@ -82,15 +106,11 @@ def consumed_keys(funcs):
                 out.add(common.const_str(n.args[0]))
             elif isinstance(n, ast.Call) and isinstance(n.func, ast.Attribute) and n.func.attr in ("pop", "get") and n.args and isinstance(n.args[0], ast.Name):
                 out |= _table_strings(f, n.args[0].id)   # (a key taken from a literal table of the module)
+                out |= _key_list_strings(f, n.args[0].id)   # (a key that ranges over a local list of key names)
             if isinstance(n, ast.Subscript) and isinstance(n.ctx, ast.Load) and common.const_str(n.slice):
                 out.add(common.const_str(n.slice))
             if isinstance(n, ast.Compare) and len(n.ops) == 1 and isinstance(n.ops[0], (ast.In, ast.NotIn)) and common.const_str(n.left):
                 out.add(common.const_str(n.left))
-            if isinstance(n, ast.Assign) and isinstance(n.targets[0], ast.Name) and "kwarg" in n.targets[0].id and isinstance(n.value, ast.List):
-                out |= {common.const_str(e) for e in n.value.elts if common.const_str(e)}
-            if isinstance(n, ast.Call) and isinstance(n.func, ast.Attribute) and n.func.attr == "append" and n.args and common.const_str(n.args[0]) \
-                    and isinstance(n.func.value, ast.Name) and "kwarg" in n.func.value.id:
-                out.add(common.const_str(n.args[0]))
     return out
 
 
